@@ -888,80 +888,201 @@ def skip_set_of_switch(inst, body, expr_pred):
     return res
 
 
-def s14_skipset(inst, rep, rid="S14"):
-    rep.rule(rid, "SWITCH: the set of Token variants that selects the skip arm in Parser::advance, in Parser::init_skip and the set "
-                  "for which is_skipped returns true are the same set, and it contains Error")
-    sets = {}
-    for rel in ("Parser::advance", "Parser::init_skip"):
-        body = inst.fn(rel)
-        sw = skip_set_of_switch(inst, body, lambda e: any(x[0] == "call" and is_call(x, "slice::get") for x in walk(e)))
-        if len(sw) != 1:
-            rep.violation(rid, "%s|token-switch-count" % rel, "%s: %s has %d switches on the fetched token (expected 1)" % (inst.label, rel, len(sw)), "%s:%d" % (body.file, body.line))
-            continue
-        b, t, by = sw[0]
-        # the skip arm is the explicit target that reaches CstData::advance(.., true)
-        skip = set()
-        for tgt, vs in by.items():
-            p = flow.find_path(body, (tgt, -1), lambda pt, it: isinstance(it, dict) and it.get("t") == "call" and (lambda c: is_call(c, "CstData::advance") and c[2][2] == ("const", "bool", 1))(P(body).call_expr(it)),
-                               blocks_point=lambda pt, it: isinstance(it, dict) and it.get("t") == "switch")
-            if p:
-                skip |= vs
-        sets[rel] = skip
+def _fetched(e):
+    """the value comes out of `self.tokens.get(..)` (a token fetched from the input vector)"""
+    return any(x[0] == "call" and is_call(x, "slice::get") for x in walk(e))
+
+
+def skipped_set(inst):
+    """the Token variants for which is_skipped returns true, by evaluating its body once per variant (switch edges on the
+    parameter's discriminant are pruned to the variant; the constants that can reach the return value are collected)"""
     isk = inst.fn("Parser::is_skipped")
-    sw = skip_set_of_switch(inst, isk, lambda e: e[0] == "param")
-    if len(sw) == 1:
-        b, t, by = sw[0]
-        tset = set()
-        for tgt, vs in by.items():
-            # target stores true to _0
-            for pt, it in flow.points(isk, tgt):
-                if "rv" in it and it["a"]["l"] == 0 and P(isk).rvalue(it["rv"]) == ("const", "bool", 1):
-                    tset |= vs
-        sets["Parser::is_skipped"] = tset
+    pr = P(isk)
+    tok = inst.token_adt()
+    names = inst.unit.enum_variants(tok)
+    if not names:
+        raise MissingAnchor("%s: no variant table for the Token enum" % inst.label)
+    rets = [(pt, pr.rvalue(it["rv"])) for pt, it in flow.all_points(isk) if "rv" in it and it["a"]["l"] == 0 and not it["a"]["p"]]
+    out = set()
+    undecided = []
+    for v in names:
+        def ok(s_, tgt, lab):
+            t = isk.term(s_)
+            if t["t"] != "switch":
+                return True
+            e = pr.operand(t["d"])
+            if e[0] == "discr" and e[1][0] == "param":
+                if lab[0] == "v":
+                    return inst.unit.enum_variant(tok, lab[1]) == v
+                return v not in {inst.unit.enum_variant(tok, x) for x in lab[1]}
+            return True
+        vals = set()
+        for pt, e in rets:
+            if flow.find_path(isk, (0, -1), lambda q, it: q == pt, edge_ok=ok):
+                vals.add(e if e[0] == "const" else ("?",))
+        if vals == {("const", "bool", 1)}:
+            out.add(v)
+        elif vals != {("const", "bool", 0)}:
+            undecided.append(v)
+    return out, undecided
+
+
+def _scenario_edges(inst, body, pr, skip, scen):
+    """edge filter for one class of fetched token: A = in the skip set; B = not in it, predicate_skip true; C = not in it, predicate_skip false"""
+    tok = inst.token_adt()
+    names = set(inst.unit.enum_variants(tok))
+
+    def ok(s_, tgt, lab):
+        t = body.term(s_)
+        if t["t"] != "switch":
+            return True
+        e = pr.operand(t["d"])
+        if e[0] == "discr" and short(e[2]) == "Token" and _fetched(e[1]):
+            if lab[0] == "v":
+                vs = {inst.unit.enum_variant(tok, lab[1])}
+            else:
+                vs = names - {inst.unit.enum_variant(tok, x) for x in lab[1]}
+            return bool(vs & skip) if scen == "A" else bool(vs - skip)
+        truth = False if lab == ("v", 0) else True if (lab[0] == "else" and lab[1] == (0,)) else None
+        if truth is None:
+            return True
+        facts = []
+        _atoms(e, truth, facts)
+        for a, tr in facts:
+            if a[0] == "call" and is_call(a, "Parser::is_skipped") and a[2] and _fetched(a[2][0]):
+                if tr != (scen == "A"):
+                    return False
+            if a[0] == "call" and _method(a[3]) == "predicate_skip" and scen != "A":
+                if tr != (scen == "B"):
+                    return False
+        return True
+    return ok
+
+
+def _atoms(e, truth, out):
+    if e[0] == "un" and e[1] == "Not":
+        _atoms(e[2], not truth, out)
+    elif e[0] == "bin" and e[1] == "BitAnd" and truth:
+        _atoms(e[2], True, out); _atoms(e[3], True, out)
+    elif e[0] == "bin" and e[1] == "BitOr" and not truth:
+        _atoms(e[2], False, out); _atoms(e[3], False, out)
     else:
-        rep.violation(rid, "is_skipped|shape", "%s: is_skipped is not a single match on its token" % inst.label, "%s:%d" % (isk.file, isk.line))
-    if len(sets) == 3:
-        vals = list(sets.values())
-        if vals[0] == vals[1] == vals[2] and "Error" in vals[0]:
-            rep.ok(rid, "%s skip set %s identical in advance, init_skip, is_skipped" % (inst.label, sorted(vals[0])))
-        else:
-            rep.violation(rid, "skip-sets-differ", "%s: the skip sets disagree: %s" % (inst.label, {k: sorted(v) for k, v in sets.items()}), "%s:%d" % (isk.file, isk.line))
-    return sets.get("Parser::is_skipped")
+        out.append((e, truth))
 
 
-def s15_eager(inst, rep, skipset, rid="S15"):
-    rep.rule(rid, "SWITCH: in advance and init_skip every store to Parser.current of a fetched token is reachable only through the "
-                  "default arm of the skip-set switch and the false edge of predicate_skip (a skipped token never becomes current)")
-    for rel in ("Parser::advance", "Parser::init_skip"):
-        body = inst.fn(rel)
-        pr = P(body)
-        sw = skip_set_of_switch(inst, body, lambda e: any(x[0] == "call" and is_call(x, "slice::get") for x in walk(e)))
-        if len(sw) != 1:
+def _flag_value(e, scen):
+    """value of a skip-flag expression for a fetched token of class `scen` (None = not determined)"""
+    if e[0] == "const" and e[1] == "bool":
+        return bool(e[2])
+    if e[0] == "call" and is_call(e, "Parser::is_skipped") and e[2] and _fetched(e[2][0]):
+        return scen == "A"
+    if e[0] == "call" and _method(e[3]) == "predicate_skip":
+        return None if scen == "A" else scen == "B"
+    if e[0] == "un" and e[1] == "Not":
+        v = _flag_value(e[2], scen)
+        return None if v is None else not v
+    if e[0] == "bin" and e[1] in ("BitOr", "BitAnd"):
+        x, y = _flag_value(e[2], scen), _flag_value(e[3], scen)
+        if e[1] == "BitOr":
+            return True if (x or y) else (False if (x is False and y is False) else None)
+        return False if (x is False or y is False) else (True if (x and y) else None)
+    return None
+
+
+SKIP_LOOP_FNS_EXCLUDED = ("Parser::parse_rule",)   # its trailing-input loop is decided by S17 (flag == is_skipped(token))
+
+
+def _skip_sites(inst):
+    """per skeleton function: fetch points, pushes of a fetched token, stores of a fetched token to Parser.current"""
+    for rel, body in sorted(inst.fns.items()):
+        if not rel.startswith("Parser::") or rel in SKIP_LOOP_FNS_EXCLUDED:
             continue
-        b, t, by = sw[0]
-        for pt, adt, f, val, st in stores(body):
-            if adt == "Parser" and f == "current" and any(x[0] == "call" and is_call(x, "slice::get") for x in walk(val)):
-                # every path from switch block b to pt must use the else edge, and pass predicate_skip false edge
-                bad = None
-                for tgt, lab in body.succ_edges(b):
-                    if lab[0] == "v":
-                        p = flow.find_path(body, (tgt, -1), lambda q, it: q == pt, edge_ok=lambda s, tg, l: not (s == b))
-                        if p:
-                            bad = "an explicit skip-set arm reaches the store"
-                # predicate_skip guard
-                pg = False
-                for bb in body.reachable():
-                    tt = body.term(bb)
-                    if tt["t"] == "switch":
-                        e = pr.operand(tt["d"])
-                        if e[0] == "call" and _method(e[3]) == "predicate_skip":
-                            for tgt, lab in body.succ_edges(bb):
-                                if lab == ("v", 0) and flow.edge_dominates(body, (bb, tgt), pt[0]):
-                                    pg = True
-                if bad or not pg:
-                    rep.violation(rid, "%s|current<-skipped" % rel, "%s: %s can make a skipped token current (%s)" % (inst.label, rel, bad or "store not guarded by !predicate_skip(token)"), site(body, pt))
-                else:
-                    rep.ok(rid, "%s %s: current <- token only on the non-skip, !predicate_skip path" % (inst.label, rel))
+        pr = P(body)
+        fetch = [pt for pt, name, decl, args, t in calls(body) if fn_tail(name, 1) == "get" and is_call(pr.call_expr(t), "slice::get")
+                 and any(is_field(y, "Parser", "tokens") for a in args for y in walk(a))]
+        pushes = [(pt, args) for pt, name, decl, args, t in calls(body) if fn_tail(name) == "CstData::advance" and _fetched(args[1])]
+        cur = [(pt, val) for pt, adt, f, val, st in stores(body) if adt == "Parser" and f == "current" and _fetched(val)]
+        if pushes or cur:
+            yield rel, body, pr, fetch, pushes, cur
+
+
+def s14_skipset(inst, rep, rid="S14"):
+    rep.rule(rid, "PATH (per token class): wherever the skeleton pushes a token it has just fetched from the input vector "
+                  "(CstData::advance(token, flag) in advance / init_skip or a helper of theirs), the flag is true, and the site is reachable "
+                  "exactly for tokens that is_skipped() or predicate_skip() classify as skipped: the feasible paths from the fetch are "
+                  "enumerated for the three classes `in the skip set`, `not in it and predicate_skip`, `not in it and not predicate_skip`, "
+                  "pruning matches on the token, is_skipped(token) and predicate_skip(token) tests accordingly; the skip set is read off "
+                  "is_skipped by evaluating it per variant and contains Error")
+    skip, undecided = skipped_set(inst)
+    isk = inst.fn("Parser::is_skipped")
+    if undecided:
+        rep.violation(rid, "is_skipped|undecided", "%s: is_skipped does not return a constant for the variants %s" % (inst.label, undecided[:5]), "%s:%d" % (isk.file, isk.line))
+    if "Error" not in skip:
+        rep.violation(rid, "is_skipped|error-not-skipped", "%s: is_skipped(Token::Error) is false: lexer error tokens would reach the grammar" % inst.label, "%s:%d" % (isk.file, isk.line))
+    npush = 0
+    for rel, body, pr, fetch, pushes, cur in _skip_sites(inst):
+        fset = set(fetch)
+        for pt, args in pushes:
+            npush += 1
+            bad = None
+            if not fetch:
+                bad = "no fetch from Parser.tokens found in front of the push"
+            for scen, what in (("A", "a token of the skip set"), ("B", "a token that predicate_skip marks as skipped"), ("C", "a significant token")):
+                if bad:
+                    break
+                ok = _scenario_edges(inst, body, pr, skip, scen)
+                reach = any(flow.find_path(body, f, lambda q, it: q == pt, blocks_point=lambda q, it: q in fset, edge_ok=ok) for f in fetch)
+                if scen == "C":
+                    if reach:
+                        bad = "the push is reachable for a significant token (neither in the skip set nor predicate-skipped)"
+                elif reach:
+                    v = _flag_value(args[2], scen)
+                    if v is not True:
+                        bad = "for %s the skip flag `%s` is %s" % (what, show(args[2], 80), "false" if v is False else "not determined")
+            # each skipped class must reach some push in this function
+            if bad:
+                rep.violation(rid, "%s|skip-flag" % rel, "%s: %s pushes a fetched token with a wrong skip flag: %s (a node could start or end with a "
+                              "skipped token, or a significant token be treated as trivia)" % (inst.label, rel, bad), site(body, pt))
+            else:
+                rep.ok(rid, "%s %s: fetched token pushed with skip=true exactly for skipped classes" % (inst.label, rel))
+        if fetch and pushes:
+            for scen, what in (("A", "in the skip set"), ("B", "predicate-skipped")):
+                ok = _scenario_edges(inst, body, pr, skip, scen)
+                if not any(flow.find_path(body, f, lambda q, it: q in {p for p, _ in pushes}, blocks_point=lambda q, it: q in fset, edge_ok=ok) for f in fetch):
+                    rep.violation(rid, "%s|class-%s-not-pushed" % (rel, scen), "%s: %s never pushes a token that is %s" % (inst.label, rel, what), "%s:%d" % (body.file, body.line))
+    if npush == 0:
+        rep.violation(rid, "no-skip-push", "%s: no site pushes a fetched token with a skip flag (advance/init_skip not recognised)" % inst.label, "%s:%d" % (isk.file, isk.line))
+    return skip
+
+
+def s15_eager(inst, rep, skipset=None, rid="S15"):
+    rep.rule(rid, "PATH (per token class): every store of a fetched token to Parser.current is unreachable for a token of the skip set and for a "
+                  "token predicate_skip marks as skipped, and reachable for a significant token (a skipped token never becomes current)")
+    skip, _ = skipped_set(inst)
+    n = 0
+    for rel, body, pr, fetch, pushes, cur in _skip_sites(inst):
+        fset = set(fetch)
+        for pt, val in cur:
+            n += 1
+            bad = None
+            if not fetch:
+                bad = "no fetch from Parser.tokens found in front of the store"
+            for scen, what in (("A", "a token of the skip set"), ("B", "a token that predicate_skip marks as skipped")):
+                if bad:
+                    break
+                ok = _scenario_edges(inst, body, pr, skip, scen)
+                if any(flow.find_path(body, f, lambda q, it: q == pt, blocks_point=lambda q, it: q in fset, edge_ok=ok) for f in fetch):
+                    bad = "%s can become current" % what
+            if not bad:
+                ok = _scenario_edges(inst, body, pr, skip, "C")
+                if not any(flow.find_path(body, f, lambda q, it: q == pt, blocks_point=lambda q, it: q in fset, edge_ok=ok) for f in fetch):
+                    bad = "a significant token never becomes current here"
+            if bad:
+                rep.violation(rid, "%s|current<-skipped" % rel, "%s: %s: %s" % (inst.label, rel, bad), site(body, pt))
+            else:
+                rep.ok(rid, "%s %s: current <- token only for significant tokens" % (inst.label, rel))
+    if n == 0:
+        rep.violation(rid, "no-current-store", "%s: no store of a fetched token to Parser.current found" % inst.label, "")
 
 
 def s16_peek(inst, rep, rid="S16"):
